@@ -261,7 +261,13 @@ func (s *Segment) resolveFarPointer(paddr address) (dst *Segment, base address, 
 		if dst, err = s.lookupSegment(far.farSegment()); err != nil {
 			return nil, 0, 0, annotate(err).errorf("double-far pointer")
 		}
-		return dst, 0, landingPadNearPointer(far, tag), nil
+		near := landingPadNearPointer(far, tag)
+		if near == 0 {
+			// A zero-sized struct at the start of dst, not a null
+			// pointer: use its equivalent non-zero encoding.
+			return dst, address(wordSize), rawStructPointer(-1, ObjectSize{}), nil
+		}
+		return dst, 0, near, nil
 	case farPointer:
 		var err error
 		dst, err = s.lookupSegment(val.farSegment())
